@@ -290,7 +290,7 @@ class Bench:
         time each wait lasted (from the call of Condition.wait to its return, i.e. with the lock re-acquired).  Every such span
         lies inside the span the code itself measures around the wait, so the budget the code has used up is at least their
         sum: a NEW wait that begins when the earlier waits of the same call already add up to the channel timeout means the
-        call waits beyond its own budget (exact under the virtual clock, no slack needed)."""
+        call waits beyond its own budget (virtual clock: no scheduling slack is needed, only 1e-6 s for the code's own float arithmetic)."""
         cv = self.chan.out_buffer_cv
         real_wait = cv.wait
         s = self.s
@@ -303,7 +303,10 @@ class Bench:
             t = self.chan.timeout
             if t is not None and t > 0 and me in spent:
                 self.nwaits[me] = self.nwaits.get(me, 0) + 1
-                if spent[me] >= t:
+                # 1e-6 virtual seconds of tolerance: the code under test keeps its own budget by repeated float subtraction
+                # (`timeout -= elapsed`), so after waits of e.g. 0.1 + 0.2 + 0.2 s a budget of 0.5 s may legitimately have
+                # ~3e-17 s left and one more (immediately expiring) wait begins; that is rounding, not waiting beyond the budget
+                if spent[me] > t + 1e-6:
                     self.over.append((me, t, spent[me], self.nwaits[me]))
             t0 = s.now
             self.parked.add(me)
